@@ -8,26 +8,38 @@ Quick tour (see the docstrings for details)::
 
     from harness.dexasm import *
 
+    # (a) code as a list of assemble() items with symbolic pool references and labels
     b = DexBuilder()
-    b.extra_strings.append('hello')                       # force pool entries
-    b.extra_methods.append(('Ljava/io/PrintStream;', 'println', 'V', ('Ljava/lang/String;',)))
-    b.extra_fields.append(('Ljava/lang/System;', 'out', 'Ljava/io/PrintStream;'))
-
-    def body(b):                                          # evaluated after freeze()
-        code, labels = assemble([
-            ('sget-object', 0, b.field_idx('Ljava/lang/System;', 'out', 'Ljava/io/PrintStream;')),
-            ('const-string', 1, b.string_idx('hello')),
-            ('invoke-virtual', (0, 1), b.method_idx('Ljava/io/PrintStream;', 'println', 'V',
-                                                    ('Ljava/lang/String;',))),
-            ('return-void',),
-        ])
-        return code
-
     b.add_class('LFoo;', static_fields=[Field('X', 'I', 0x9, init=(VALUE_INT, 7))],
-                direct_methods=[Method('main', 'V', ('[Ljava/lang/String;',), 0x9,
-                                       Code(2, 1, 2, body))])
+                direct_methods=[Method('main', 'V', ('[Ljava/lang/String;',), 0x9, Code(3, 1, 2, [
+                    'start:',
+                    ('sget-object', 0, FieldRef('Ljava/lang/System;', 'out', 'Ljava/io/PrintStream;')),
+                    ('const-string', 1, StringRef('hello')),
+                    ('invoke-virtual', (0, 1), MethodRef('Ljava/io/PrintStream;', 'println', 'V',
+                                                         ('Ljava/lang/String;',))),
+                    'end:',
+                    ('return-void',),
+                    'h:',
+                    ('move-exception', 2), ('throw', 2),
+                ], tries=[Try('start', 'end', [('Ljava/lang/Exception;', 'h')], catch_all=None)]))])
     data = b.build()            # bytes of a complete, checksummed .dex file
     b.layout                    # offsets of every item that was written
+    b.code_bytes, b.code_tries, b.code_labels   # what was written, keyed by method ref
+
+    # (b) raw bytes computed after the pools are frozen
+    b = DexBuilder()
+    b.extra_strings.append('hello')                       # force pool entries
+    b.add_class('LBar;', virtual_methods=[Method('f', 'I', ('J', 'D'), 0x1, Code(
+        6, 5, 0, lambda b: ins('const-string', 0, b.string_idx('hello')) + ins('return', 0)))])
+    b.freeze(); b.string_idx('hello'); b.strings; b.types; b.protos; b.fields; b.methods
+    data = b.build(shared_handlers=True, leb_pad=1, version=b'039', map_order=[TYPE_MAP_LIST])
+
+    # (c) instruction level
+    ins('const/4', 0, -1); ins(0x0e); encode_format('22c', 0x52, 1, 2, 0x33); OPCODES[0x6e]
+    code, labels = assemble(['top:', ('if-eqz', 0, 'top'), ('packed-switch', 0, 'tab'), ('return-void',),
+                             'tab:', ('packed-switch-payload', 10, ['top', 'top'])])
+    list(sweep(code))           # independent linear-sweep decoder
+    fix_checksum(patched)       # after patching bytes for a negative test
 
 Conventions
 -----------
@@ -63,7 +75,8 @@ __all__ = [
     'StringRef', 'TypeRef', 'FieldRef', 'MethodRef', 'ProtoRef',
     # file model
     'Field', 'Method', 'Code', 'Try', 'Annotation', 'ClassDef', 'DexBuilder',
-    'fix_checksum', 'debug_info_item', 'shorty', 'NO_INDEX',
+    'fix_checksum', 'parse_header', 'HEADER_FIELDS', 'debug_info_item', 'shorty', 'NO_INDEX',
+    'UNUSED_OPCODES',
     'TYPE_HEADER_ITEM', 'TYPE_STRING_ID_ITEM', 'TYPE_TYPE_ID_ITEM', 'TYPE_PROTO_ID_ITEM',
     'TYPE_FIELD_ID_ITEM', 'TYPE_METHOD_ID_ITEM', 'TYPE_CLASS_DEF_ITEM', 'TYPE_CALL_SITE_ID_ITEM',
     'TYPE_METHOD_HANDLE_ITEM', 'TYPE_MAP_LIST', 'TYPE_TYPE_LIST',
@@ -1196,6 +1209,24 @@ def debug_info_item(line_start: int, parameter_names, opcodes: bytes = b'\x00', 
         else:
             out += uleb128p1(resolver.string_idx(p))
     return out + bytes(opcodes)
+
+
+HEADER_FIELDS = ('file_size', 'header_size', 'endian_tag', 'link_size', 'link_off', 'map_off',
+                 'string_ids_size', 'string_ids_off', 'type_ids_size', 'type_ids_off',
+                 'proto_ids_size', 'proto_ids_off', 'field_ids_size', 'field_ids_off',
+                 'method_ids_size', 'method_ids_off', 'class_defs_size', 'class_defs_off',
+                 'data_size', 'data_off')
+
+
+def parse_header(data: bytes) -> dict:
+    """the 0x70-byte header_item as a dict (``magic``, ``checksum``, ``signature`` and
+    HEADER_FIELDS), plus ``checksum_ok`` / ``signature_ok``"""
+    h = {'magic': bytes(data[:8]), 'checksum': struct.unpack_from('<I', data, 8)[0],
+         'signature': bytes(data[12:32])}
+    h.update(zip(HEADER_FIELDS, struct.unpack_from('<20I', data, 32)))
+    h['checksum_ok'] = h['checksum'] == zlib.adler32(bytes(data[12:])) & 0xFFFFFFFF
+    h['signature_ok'] = h['signature'] == hashlib.sha1(bytes(data[32:])).digest()
+    return h
 
 
 def fix_checksum(data: bytes) -> bytes:
